@@ -88,6 +88,10 @@ pub struct NetCfg {
     /// (seed, link, ordinal) like every other per-datagram decision; stays on in explicit replays.
     #[serde(default)]
     pub yield_ppm: u32,
+    /// a real node's recv_from call fails with ECONNRESET instead of waiting for a datagram (nothing
+    /// is lost: queued datagrams stay queued). Stateless like yield_ppm; stays on in explicit replays.
+    #[serde(default)]
+    pub recv_err_ppm: u32,
 }
 
 impl NetCfg {
@@ -796,6 +800,11 @@ impl btdht::SocketTrait for SimSocket {
             let y = ppm > 0 && n.roll(&self.addr, &self.addr, calls, 22) % PPM < ppm as u64;
             if y {
                 n.bump("sched_yield_recv");
+            }
+            let eppm = n.cfg.recv_err_ppm;
+            if calls > 0 && eppm > 0 && n.roll(&self.addr, &self.addr, calls, 23) % PPM < eppm as u64 {
+                n.bump("fault_recv_err");
+                return Err(io::Error::from_raw_os_error(104));
             }
             y
         };
